@@ -6,7 +6,9 @@
 // --readers x GOMAXPROCS x every order of the file arguments x every way of
 // dividing the same lines among 1..3 files, and must equal an independent
 // sequential reference aggregation (reference.go), with the CSV parsed by an
-// own RFC 4180 parser.
+// own RFC 4180 parser. size.go adds the SIZE families: the same oracle on
+// corpora of up to 65537 lines, lines of up to 512 KiB, 5001 distinct keys,
+// 40 files and increments up to MaxInt64, with a handful of tunings each.
 package main
 
 import (
@@ -39,6 +41,13 @@ type Case struct {
 	Out     string `json:"out"`    // snapshot+csvfile | csvstdout
 	Tuning  Tuning `json:"tuning"`
 	Cmdline string `json:"cmdline,omitempty"`
+	// size families only (size.go): the corpus is sizedLines(Family, Shape,
+	// Size) divided among Files files (Split: chunks | rr); N and Assign are unused
+	Family string `json:"family,omitempty"`
+	Shape  string `json:"shape,omitempty"`
+	Size   int64  `json:"size,omitempty"`
+	Files  int    `json:"files,omitempty"`
+	Split  string `json:"split,omitempty"`
 }
 
 var (
@@ -128,6 +137,9 @@ func newEnv(w *runner.W) *env {
 	os.MkdirAll(home, 0o755)
 	e := &env{w: w, bin: bin, tmp: tmp, home: home, progs: map[string]*Program{}, base: map[string]*observation{}}
 	for _, p := range programs() {
+		e.progs[p.Name] = p
+	}
+	for _, p := range sizePrograms() {
 		e.progs[p.Name] = p
 	}
 	return e
@@ -332,6 +344,27 @@ func worker(w *runner.W) {
 			jobs = append(jobs, job{p, corpora["A"], 5})
 		}
 	}
+	if only == "size" { // debugging aid: -p only=size runs the size families alone
+		jobs = nil
+	}
+	onlyFam := w.Param("fam", "") // debugging aid: -p fam=<family>
+	for _, u := range sizeUnits(w.Quick()) {
+		if (only != "" && only != "size" && u.p.Name != only) || (onlyFam != "" && u.fam != onlyFam) {
+			continue
+		}
+		unit++
+		if !w.Owns(unit) {
+			continue
+		}
+		if w.Expired() {
+			return
+		}
+		if e.hangs >= 3 {
+			w.Cap("enumeration stopped after 3 hanging processes in one worker")
+			return
+		}
+		e.runSizeUnit(u)
+	}
 	for _, j := range jobs {
 		lines := j.c.lines(j.n)
 		for _, assign := range assignments(len(lines), 3) {
@@ -444,6 +477,9 @@ func (e *env) check(p *Program, c *Corpus, dir string, files []string, cs Case, 
 	o, res := e.run(p, c, dir, files, cs)
 	cs.Cmdline = o.cmdline
 	pre := "C03/" + p.Name + "/"
+	if cs.Family != "" {
+		pre += cs.Family + "-" + sizeClass(cs.Family, cs.Size) + "/"
+	}
 	bad := false
 	viol := func(sig, msg string) {
 		bad = true
@@ -452,6 +488,8 @@ func (e *env) check(p *Program, c *Corpus, dir string, files []string, cs Case, 
 			b, _ := os.ReadFile(filepath.Join(dir, f))
 			if strings.HasSuffix(f, ".gz") {
 				fs = append(fs, fmt.Sprintf("%s=gzip(%d bytes)", f, len(b)))
+			} else if len(b) > 200 {
+				fs = append(fs, fmt.Sprintf("%s=(%d bytes, %d lines) %q...", f, len(b), bytes.Count(b, []byte("\n")), b[:60]))
 			} else {
 				fs = append(fs, fmt.Sprintf("%s=%q", f, b))
 			}
@@ -474,6 +512,9 @@ func (e *env) check(p *Program, c *Corpus, dir string, files []string, cs Case, 
 		return nil
 	}
 	w.Eval(ref.matched > 0)
+	// size families: one signature per run, the first failing clause (a broad
+	// defect otherwise files programs x size classes x clauses signatures)
+	first := func() bool { return cs.Family == "" || !bad }
 
 	// exit status
 	if want := ref.exitStatus(); res.exit != want {
@@ -481,37 +522,41 @@ func (e *env) check(p *Program, c *Corpus, dir string, files []string, cs Case, 
 	}
 
 	// csv against the reference
-	if p.HasCSV {
+	if p.HasCSV && first() {
 		if sig, msg := checkCSV(p, ref, o.csv); sig != "" {
 			viol(pre+"csv/"+sig, msg)
 		}
 	}
 	// snapshot against the reference
 	if cs.Out != "csvstdout" {
-		if sig, msg := checkSnapshot(p, ref, o); sig != "" {
+		snap := checkSnapshot
+		if p.Sized {
+			snap = checkSnapshotSized
+		}
+		if sig, msg := snap(p, ref, o); sig != "" && first() {
 			viol(pre+"snapshot/"+sig, msg)
 		}
-		if !o.statusOK {
+		if !o.statusOK && first() {
 			viol(pre+"snapshot/status-line", "the status line after the summary is not `[done/sources] bytes (rate/s) [| active]` with sources = number of file arguments")
 		}
 	}
 
 	// identity with the baseline configuration
-	if base != nil {
+	if base != nil && first() {
 		if o.exit != base.exit {
 			viol(pre+"differs/exit-status", fmt.Sprintf("exit status %d, but %d for: %s", o.exit, base.exit, base.cmdline))
 		}
-		if p.HasCSV && o.csv != base.csv {
+		if p.HasCSV && o.csv != base.csv && first() {
 			viol(pre+"differs/csv", fmt.Sprintf("csv export differs from the one of: %s\nthis: %q\nthat: %q", base.cmdline, clip(o.csv, 400), clip(base.csv, 400)))
 		}
 		if cs.Out != "csvstdout" {
-			if o.norm != base.norm {
+			if o.norm != base.norm && first() {
 				viol(pre+"differs/snapshot", fmt.Sprintf("snapshot differs (beyond column padding) from the one of: %s\nthis: %q\nthat: %q", base.cmdline, clip(o.body, 500), clip(base.body, 500)))
 			}
 			if o.body != base.body {
 				w.Add("snapshots_differing_in_padding_only", 1)
 			}
-			if o.bytes != base.bytes {
+			if o.bytes != base.bytes && first() {
 				viol(pre+"differs/read-bytes", fmt.Sprintf("status line reports %s bytes read, but %s for: %s", o.bytes, base.bytes, base.cmdline))
 			}
 		}
@@ -948,7 +993,7 @@ func checkAnalyze(p *Program, ref *Ref, lines []string) (string, string) {
 	if len(ref.values) == 0 {
 		return "", "" // the statement does not say what is displayed for no samples
 	}
-	figs, _ := analyzeFigures(ref.values, qs)
+	figs, _ := analyzeFiguresSlack(ref.values, qs, p.Sized)
 	names := []string{"Mean", "StdDev", "Min", "Max"}
 	if extra {
 		names = append(names, "Median", "Mode")
@@ -979,6 +1024,11 @@ func replay(w *runner.W, raw json.RawMessage) {
 	e := newEnv(w)
 	defer e.close()
 	p := e.progs[cs.Program]
+	if cs.Family != "" {
+		u := sizeUnit{cs.Family, cs.Shape, cs.Size, p}
+		e.runSized(cs, e.sizeBase(u))
+		return
+	}
 	c := corpora[cs.Corpus]
 	if p == nil || c == nil {
 		panic("unknown program or corpus in the replay file")
@@ -1035,7 +1085,7 @@ func main() {
 			if tier == "thorough" {
 				n = "4 (and 5 on corpus A)"
 			}
-			return "real rare binary, one process per case: programs {" + strings.Join(pn, "; ") + "} x corpora {A plain, B gzip/plain alternating with -z, C with an unparsable increment and a non-matching line, D without any match} of " + n +
+			return sizeRule(tier) + "GRID: real rare binary, one process per case: programs {" + strings.Join(pn, "; ") + "} x corpora {A plain, B gzip/plain alternating with -z, C with an unparsable increment and a non-matching line, D without any match} of " + n +
 				" lines `key|sub|number` (keys with comma, quote, CR, leading space) x every surjection of the lines onto 1..3 ordered files (every division x every argument order) x --workers {1,2,4} x --batch {1,2,1000} x --batch-buffer {1,4} x --readers {1,3} x GOMAXPROCS {1,4}; " +
 				"the one-file layout additionally through standard input (`-` and no argument) and with --csv - ; the order-sensitive program reduce-ordered only with one reader and one worker. Every run: --snapshot stdout, --csv file, exit status compared with the reference fold and with the baseline configuration (csv and exit status byte for byte, snapshot modulo column padding) (one file, 1 worker, 1 reader, GOMAXPROCS 1). non-trivial = the reference has at least one match"
 		},
@@ -1044,6 +1094,7 @@ func main() {
 				"one OS schedule per configuration (the schedule-exhaustive part of C03 is the in-process vrt harness)",
 				"the status line below the summary (reader progress `[done/sources] bytes (rate/s) | active files`) is progress information: the byte count and the number of sources are compared, the rate, the done counter and the active-file list are not (see FINDINGS.md: the done counter is updated after the reader signals completion, so its final value depends on timing)",
 				"snapshot layout is not prescribed by C03 (C14 decides it): the numbers of the summary line, keys and counts are compared with the reference, the complete text across configurations with runs of spaces collapsed (column padding and the heatmap header indentation depend on whether the 100 ms ticker rendered an intermediate state: timing, decided by the schedule-controlled harness; runs differing in padding only are counted in snapshots_differing_in_padding_only)",
+				"size families: the snapshot shows 5 histogram keys / 20 table rows of an aggregate of up to thousands; every displayed key or row is compared with the reference, the histogram additionally against the greatest counts (--sort value is the documented default), which rows a table shows is not compared; analyze figures closer to a rounding boundary of the 4-decimal display than 2e-11 relative + 1e-9 are accepted with either rounding",
 				"analyze: where the statement does not fix a definition (sample/population deviation, median of an even count, mode ties, nearest-rank quantiles) every common variant is accepted; all figures are further than 1e-9 from a rounding boundary of the 4-decimal display",
 			}
 		},
